@@ -6,10 +6,19 @@ import cont
 
 MODEL_TARGETS = ["model/Container.vo", "spec/FileSpec.vo"]
 COQ_TARGETS = ["props/C15.vo"]
-THEOREMS = [("C15", [])]
-PROOF_FILES = ["props/C15.v"]
-TRUSTED_BASE = []
-ASSUMPTIONS = []
+THEOREMS = [("C15", ["C15_fail", "C15_built", "C15_inv", "C15_accounting", "C15_flush", "C15_nopanic", "C15_parses"])]
+PROOF_FILES = ["proofs/ContainerProofs.v", "proofs/VectoredWriteProofs.v", "props/C15.v"]
+TRUSTED_BASE = [
+    "Coq 8.16.1 kernel; no axioms (Print Assumptions: closed); no native_compute",
+    "extraction (ExtrOcamlBasic only) + ocaml/driver.ml (parsing/printing); Rust harness avrodrive",
+    "hand-written model/Container.v of writer/mod.rs (wstate: buffer, count, pending block, sink, schedule, pools) tied by the correspondence run (null codec: per-call outcomes, sink lengths, bytes)",
+    "spec/FileSpec.v reference parser (extracted) is the independent judge of every sink snapshot (null codec); the crate's own reader reads every snapshot for all codecs"
+]
+ASSUMPTIONS = [
+    "compression libraries are outside the model: enc is an arbitrary function in the theorems; compressed snapshots are judged by reading them back with the crate's reader",
+    "C15_accounting and C15_nopanic take two contracts of ser as premises (ser only appends to a Vec; ser has no writer panic site); both are being proved for the real ser in proofs/SerContractProofs.v",
+    "push_serialized(bytes, n) with n >= 2^63 or with n = 0 and non-empty bytes is a caller error outside the property (ContainerProofs.finish_leaves_uncounted_bytes, count_above_i64_not_in_grammar)"
+]
 
 def run(ctx):
     rng = random.Random(ctx["seed"] * 1000003 + 15)
